@@ -554,9 +554,11 @@ pub fn c18(thorough: bool, rng: &mut Rng, out: &mut Out) {
             let has30 = got.contains(" S:30");
             let has100 = got.contains(" S:100");
             out.stat(&format!("pace.{}.send{}.recv{}", kind, has30 as u8, has100 as u8));
-            if got.contains("S:?") {
+            // a data chunk's 30 ms are owed before the NEXT write (measured by the multi-exchange cases below), not
+            // necessarily before this call returns; any other message must not be held up by 30 ms
+            if got.contains("S:?") && !paced_send {
                 out.fail(i, format!("C18 ambiguous delay (neither clearly paced nor clearly unpaced): {}", trunc(&got)));
-            } else if has30 != paced_send {
+            } else if has30 && !paced_send {
                 out.fail(i, format!("C18 30 ms pacing after the write: observed {}, required {} for {}", has30, paced_send, trunc(&tok)));
             } else if has100 != paced_recv {
                 out.fail(i, format!("C18 100 ms pacing after the reply {}: observed {}, required {}", want_reply, has100, paced_recv));
@@ -636,9 +638,14 @@ pub fn c18(thorough: bool, rng: &mut Rng, out: &mut Out) {
             }
             None => "0A".to_string(),
         };
-        let i = out.case(format!("serialts {} {} {} | d:{} |", wms, rms, show_msg(&m), tape), true);
+        let is_chunk = matches!(m, Message::SendData(..));
+        let i = if is_chunk {
+            out.case(format!("serialmts {} {} {} {} | d:{} |", wms, rms, show_msg(&m), show_msg(&Message::DataChunksSent(ChunkCount(1))), tape), true)
+        } else {
+            out.case(format!("serialts {} {} {} | d:{} |", wms, rms, show_msg(&m), tape), true)
+        };
         out.stat("pace.slowport");
-        let got = out.impls[i].clone();
+        let got = out.impls[i].clone().replace(" G:30", " S:30").replace("G:?", "S:?");
         let paced_send = matches!(m, Message::SendData(..));
         let paced_recv = matches!(reply, Some(Message::ReportState(_, State::PageLoadInProgress)) | Some(Message::ReportState(_, State::PageShowInProgress)));
         if got.contains(" S:30") != paced_send || got.contains("S:?") {
